@@ -107,7 +107,49 @@ def all_paths(maxlen, alphabet=('a', 'b', '..')):
             yield p
 
 
+def intern_tree(shape, pool=None):
+    """The tree with all leaves 7 in which structurally equal sub-dicts
+    are ONE object (a spec reused under several keys)."""
+    pool = pool if pool is not None else {}
+    if shape == 'L':
+        return 7
+    key = fw.jdump(shape)
+    if key not in pool:
+        pool[key] = {k: intern_tree(v, pool) for k, v in shape.items()}
+    return pool[key]
+
+
+def run_shared(job, acc):
+    """Enumeration laws on trees whose equal sub-dicts are shared
+    objects: the laws speak about tree shape, not object identity."""
+    _, shape = job
+    plain = intern_tree(shape)
+    acc.case(key=('enum-shared', fw.jdump(shape)))
+    case = {'law': 'enum-shared', 'tree': shape}
+    V = lambda rule, fp, msg: acc.violate(  # noqa
+        fw.violation(rule, fp, msg, case))
+    ref_leaves = _ref_leaves(plain)
+    leaf_paths = dict(dict_to_paths((), plain))
+    if leaf_paths != ref_leaves:
+        V('C17.enum', 'dict_to_paths-wrong-leaves',
+          f'shared sub-dicts: dict_to_paths gives {leaf_paths}, expected '
+          f'{ref_leaves}')
+        return
+    if dict(hierarchy_depth(plain)) != ref_leaves:
+        V('C17.enum', 'hierarchy_depth-disagrees',
+          f'shared sub-dicts: hierarchy_depth '
+          f'{dict(hierarchy_depth(plain))} vs {ref_leaves}')
+        return
+    if paths_to_dict(dict_to_paths((), plain)) != plain:
+        V('C17.enum', 'paths_to_dict-not-inverse',
+          f'shared sub-dicts: paths_to_dict(dict_to_paths(d)) != d for '
+          f'{plain}')
+
+
 def run_tree(job, acc):
+    if job[0] == 'shared':
+        run_shared(job, acc)
+        return
     tree_shape, maxlen = job
     tree = number_leaves(tree_shape)
     V = lambda rule, fp, msg, case: acc.violate(  # noqa
@@ -148,6 +190,20 @@ def run_tree(job, acc):
                       f'get_path({p}) from {start} reached '
                       f'{got.path_for() if got is not None else None}, '
                       f'expected {target}', case)
+                    continue
+                # the store API resolves the same path to the same node
+                try:
+                    via_api = s_node[p] if p else s_node
+                    via_list = s_node[list(p)] if p else s_node
+                except Exception as e:  # noqa
+                    V('C17.walk', 'store-api-raises',
+                      f'store[{p}] from {start} raised {e!r}', case)
+                    continue
+                if via_api is not got or via_list is not got:
+                    V('C17.walk', 'store-api-reaches-other-node',
+                      f'store[{p}] from {start} reached '
+                      f'{via_api.path_for() if via_api is not None else None}'
+                      f', get_path reached {target}', case)
                     continue
                 norm = normalize_path(start + p)
                 if norm != ref_normalize(start + p):
@@ -347,6 +403,7 @@ def norm_jobs(acc):
 def run(ctx):
     maxlen = BOUNDS[ctx.tier]['path_len']
     jobs = [(t, maxlen) for t in trees(3)]
+    jobs += [('shared', t) for t in trees(3) if isinstance(t, dict)]
     acc = ctx.map(run_tree, jobs)
     norm_jobs(acc)
     return acc
@@ -356,6 +413,8 @@ def replay(case):
     acc = fw.Acc()
     if case['law'] == 'norm':
         norm_jobs(acc)
+    elif case['law'] == 'enum-shared':
+        run_shared(('shared', case['tree']), acc)
     else:
         run_tree((case['tree'], max(4, len(case.get('path', ())))), acc)
     return [v for exs in acc.viol_examples.values() for v in exs]
